@@ -240,7 +240,8 @@ def run_shard(shard, ctx):
         if ctx.out_of_time():
             break
         ctx.guard(case, run_case, case, ctx, xs)
-    ctx.count("inapplicable", counters.get("inapplicable", 0))
+    for name, n in counters.items():
+        ctx.count(name, n)
 
 
 def replay(case, ctx):
